@@ -19,7 +19,7 @@ MENU = [(0, 10), (-10, 10), (0, 0), (2, 10), (-10, -2), (-10, 0), (3, 3)]
 def params(tier):
     if tier == "quick":
         return dict(nm=3, nr=4, K=(-1, 0, 1), d=1, menu=MENU[:5], directions=("max",))
-    return dict(nm=3, nr=4, K=(-1, 0, 1, 2), d=1, menu=MENU, directions=("max", "min"))
+    return dict(nm=3, nr=4, K=(-1, 0, 1), d=1, menu=MENU, directions=("max", "min"))
 
 
 def has_internal_cycle(net):
